@@ -16,6 +16,16 @@ CLAIMED = {
   "assumption of the model); CPython OrderedDict order/invalidation modelled not verified. All theorems closed under the global context.",
   "Coq proof (invariants by induction over op lists, ghost time-stamp refinement) + model/implementation correspondence by vm_compute",
   "DESIGN.md §6 C24"),
+ "C13": (
+  "Coq theorems for all Z limits/offsets (zero, negative, huge), offset:continue and reversed: the visited items equal the "
+  "reference (Shopify each-loop) semantics; helper length = items visited; else iff nothing visited; the for loop prints each visited "
+  "item once in order with the right helpers; continue chains are contiguous; tablerow row/col = k/c+1, k mod c+1 for all c>0; the "
+  "pre-fix arithmetic is refuted by witness. Tied to /repo by a correspondence run of a loop mini-language (for/tablerow/break/continue/"
+  "parentloop/else; exhaustive small scopes + random nests) evaluated inside Coq against sync and async renders, plus an independent reference renderer.",
+  "Trusted: Coq kernel+vm_compute; harness generator/printers; Python int()/islice/reversed and the parser for the generated subset are "
+  "modelled, not verified; drops/custom iterables outside the model. All theorems closed under the global context.",
+  "Coq proof (induction over item lists, lia) + model/implementation correspondence by vm_compute",
+  "DESIGN.md §6 C13"),
 }
 
 PENDING_REASON = "not yet built in this round (planned: DESIGN.md §6/§9); no check is claimed for it yet"
